@@ -16,7 +16,7 @@ GEN_TIE = "sig"   # TCPSignature.parse / MTUSignature.parse and their field pars
 EXHAUSTIVE = {}
 
 
-XWS = ["\x0b", "\x0c", "\x1c", "\x1d", "\x1e", "\x1f", " ", "\t"]
+XWS = ["\x0b", "\x0c", "\x1c", "\x1d", "\x1e", "\x1f", " ", "\t", "\x85", "\xa0", "\u1680", "\u2003", "\u2028", "\u2029", "\u202f", "\u205f", "\u3000"]
 XCOMMENTS = ["; page\x0cbreak", ";\x0c", "; caf\u00e9 \u2028 sep", "; nel \x85 here", ";\u2029", "; \x1c\x1d\x1e fs gs rs", "; vt\x0b"]
 
 
